@@ -184,6 +184,42 @@ def load(repo):
     except SyntaxError as e:
         raise AnalysisError('%s: normalised Cython does not parse as Python (line %s: %s)'
                             % (REL, e.lineno, e.msg))
+    # X = namedtuple('X', [fields]) / namedtuple('X', 'a b c'): a record class with these fields
+    for i_, st_ in enumerate(list(tree.body)):
+        if isinstance(st_, ast.Assign) and len(st_.targets) == 1 and isinstance(st_.targets[0], ast.Name) and isinstance(st_.value, ast.Call) \
+                and isinstance(st_.value.func, (ast.Name, ast.Attribute)) and (st_.value.func.id if isinstance(st_.value.func, ast.Name) else st_.value.func.attr) == 'namedtuple' \
+                and len(st_.value.args) == 2 and not st_.value.keywords:
+            fa_ = st_.value.args[1]
+            flds_ = None
+            if isinstance(fa_, (ast.List, ast.Tuple)) and all(isinstance(e_, ast.Constant) and isinstance(e_.value, str) for e_ in fa_.elts):
+                flds_ = [e_.value for e_ in fa_.elts]
+            elif isinstance(fa_, ast.Constant) and isinstance(fa_.value, str):
+                flds_ = fa_.value.replace(',', ' ').split()
+            if flds_ and all(f_.isidentifier() for f_ in flds_):
+                code_ = 'class %s(object):\n    def __init__(self, %s):\n%s' % (
+                    st_.targets[0].id, ', '.join(flds_), ''.join('        self.%s = %s\n' % (f_, f_) for f_ in flds_))
+                cls_ = ast.parse(code_).body[0]
+                for n_ in ast.walk(cls_):
+                    if hasattr(n_, 'lineno'):
+                        n_.lineno = n_.end_lineno = st_.lineno
+                tree.body[tree.body.index(st_)] = cls_
+    # an extension type's __cinit__ is its constructor; a local declared with the type of such a class (`cdef C x`) is
+    # only a declaration
+    cnames = set()
+    for c_ in tree.body:
+        if isinstance(c_, ast.ClassDef):
+            names_ = {f_.name for f_ in c_.body if isinstance(f_, ast.FunctionDef)}
+            if '__cinit__' in names_ and '__init__' not in names_:
+                for f_ in c_.body:
+                    if isinstance(f_, ast.FunctionDef) and f_.name == '__cinit__':
+                        f_.name = '__init__'
+            cnames.add(c_.name)
+    for f_ in ast.walk(tree):
+        if isinstance(f_, (ast.FunctionDef, ast.AsyncFunctionDef)):
+            for blk in [f_.body]:
+                blk[:] = [x for x in blk if not (isinstance(x, ast.Assign) and isinstance(x.value, ast.Call) and isinstance(x.value.func, ast.Name)
+                                                 and x.value.func.id == '__cdecl__' and x.value.args and isinstance(x.value.args[0], ast.Constant)
+                                                 and x.value.args[0].value in cnames)] or [ast.Pass()]
     from . import objflat
     flattened = objflat.flatten(tree)
     mod = PyModule(REL, text, tree)
